@@ -25,9 +25,87 @@ def _consts(tier, asfound, rounds):
     return c
 
 
+def _library_panic(stderr):
+    """True if the process died with a panic/fatal error whose innermost
+    non-runtime frame is library code (not the harness)."""
+    if "panic:" not in stderr and "fatal error:" not in stderr:
+        return False
+    seen_goroutine = False
+    for line in stderr.splitlines():
+        if line.startswith("goroutine "):
+            seen_goroutine = True
+            continue
+        if not seen_goroutine or line.startswith(("\t", " ")) or not line.strip():
+            continue
+        fn = line.strip()
+        if fn.startswith(("panic(", "runtime.", "runtime/", "internal/", "created by")):
+            continue
+        return fn.startswith("github.com/talostrading/sonic")
+    return False
+
+
+def _replay(ck, beh, trace):
+    """Run the driver.  A panic on one of the library's own goroutines kills the
+    process; that is behaviour of the code under test, not tool trouble: the
+    scenario is recorded as `Result err=panic` and the run resumes after it."""
+    import subprocess
+    exe = vlib.build_harness()
+    total = {"scenarios": 0, "events": 0, "nontrivial": 0, "drift": 0, "first_drift": None, "notes": {}}
+    parts, start, crashes = [], 1, 0
+    while True:
+        part = "%s.p%d" % (trace, len(parts))
+        args = [exe, "wshs", "-in", beh, "-out", part, "-seed", str(ck.seed)] + (["-mode", "from:%d" % start] if start > 1 else [])
+        try:
+            p = subprocess.run(args, capture_output=True, text=True, timeout=1500)
+        except subprocess.TimeoutExpired:
+            raise vlib.Inconclusive("replay wshs timed out")
+        summ = None
+        for line in p.stdout.splitlines():
+            if line.startswith("SUMMARY "):
+                summ = json.loads(line[8:])
+        if p.returncode == 0 and summ:
+            parts.append(part)
+            for k in ("scenarios", "events", "nontrivial", "drift"):
+                total[k] += summ[k]
+            total["first_drift"] = total["first_drift"] or summ.get("first_drift")
+            for k, v in (summ.get("notes") or {}).items():
+                total["notes"][k] = total["notes"].get(k, 0) + v
+            break
+        cur = part + ".cur"
+        if not (_library_panic(p.stderr) and os.path.exists(cur)):
+            raise vlib.Inconclusive("replay wshs failed (rc %d):\n%s\n%s" % (p.returncode, p.stdout[-1000:], p.stderr[-4000:]))
+        crashes += 1
+        sid = int(open(cur).read())
+        # keep the complete scenarios recorded before the crash
+        kept = [l for l in open(part) if '"sid":%d,' % sid not in l] if os.path.exists(part) else []
+        with open(part, "w") as f:
+            f.writelines(l for l in kept if l.endswith("\n"))
+        total["scenarios"] += len({l.split('"sid":')[1].split(",")[0] for l in kept})
+        parts.append(part)
+        part2 = "%s.p%d" % (trace, len(parts))
+        p2 = subprocess.run([exe, "wshs", "-in", beh, "-out", part2, "-mode", "crashed:%d" % sid],
+                            capture_output=True, text=True, timeout=300)
+        if p2.returncode != 0:
+            raise vlib.Inconclusive("replay wshs crashed:%d failed: %s" % (sid, p2.stderr[-2000:]))
+        parts.append(part2)
+        total["scenarios"] += 1
+        ck.cov.setdefault("library_panics", []).append({"scenario": sid, "panic": p.stderr[:600]})
+        start = sid + 1
+        if crashes >= 25:
+            # enough evidence; the scenarios after this one are not replayed
+            ck.cov["replay_truncated_after_scenario"] = sid
+            break
+    with open(trace, "w") as out:
+        for part in parts:
+            with open(part) as f:
+                out.write(f.read())
+            os.remove(part)
+    return total
+
+
 def _validate(ck, sw, name, beh, label):
     trace = os.path.join(ck.work, "trace_%s.ndjson" % name)
-    summ, _ = vlib.run_replay(["wshs", "-in", beh, "-out", trace, "-seed", str(ck.seed)], timeout=1500)
+    summ = _replay(ck, beh, trace)
     bads, _ = vlib.validate_trace(sw, "HandshakeMonTrace", "HandshakeMonTrace.cfg", trace, parallel=8)
     harness = [b for b in bads if b[2].startswith("C18/harness")]
     if harness:
